@@ -1325,7 +1325,9 @@ class Engine:
         kwargs = {}
         for k in node.keywords:
             if k.arg is None:
-                raise Unsupported("**kwargs at call site")
+                # f(**d): only meaningful for opaque library calls
+                kwargs["**"] = self.eval(st, k.value)
+                continue
             kwargs[k.arg] = self.eval(st, k.value)
         return args, kwargs
 
